@@ -76,7 +76,12 @@ Singles(tr) == {<< <<k, c>> >> : k \in 1..N2(tr), c \in {1, 2, 3}}
 Pairs(tr) == IF Len(tr) > PairMax THEN {}
              ELSE UNION {{<< <<k1, c1>>, <<k2, c2>> >> : k2 \in (k1 + 1)..Len(Walk(tr, << <<k1, c1>> >>).walk), c2 \in {1, 2, 3, 4}}
                          : k1 \in 1..N2(tr), c1 \in {1, 2, 3}}
-Ctls(tr) == {<<>>} \cup Singles(tr) \cup Pairs(tr)
+\* on larger trees: a second control value at the very next callback, in the combinations the error lattice distinguishes
+Combos == {<<1, 2>>, <<1, 3>>, <<2, 1>>, <<2, 3>>, <<3, 1>>, <<3, 2>>, <<3, 4>>}
+AdjPairs(tr) == IF Len(tr) <= PairMax THEN {}
+                ELSE UNION {{<< <<k, c[1]>>, <<k + 1, c[2]>> >> : c \in Combos} :
+                            k \in {x \in 1..N2(tr) : \E c1 \in {1, 2} : x + 1 <= Len(Walk(tr, << <<x, c1>> >>).walk)}}
+Ctls(tr) == {<<>>} \cup Singles(tr) \cup Pairs(tr) \cup AdjPairs(tr)
 
 \* ---------------------------------------------------------------- laws (independent characterisations)
 W0 == Walk(T, <<>>).walk
